@@ -22,9 +22,16 @@ class SimClock:
 
     def __init__(self, ns: int = 1_700_000_000_000_000_000):
         self.ns = int(ns)
+        self.tick_per_read_ns = 0  # time that passes between two readings of the clock (0 = frozen during a call)
+        self.reads: t.List[int] = []
 
     def time_ns(self) -> int:
-        return self.ns
+        v = self.ns
+        self.reads.append(v)
+        if len(self.reads) > 10000:
+            del self.reads[:5000]
+        self.ns += self.tick_per_read_ns
+        return v
 
     def time(self) -> float:
         return self.ns / 1e9
@@ -76,13 +83,14 @@ class SimEntropy:
         elif self.frozen is not None:
             out = (self.frozen * (n // len(self.frozen) + 1))[:n]
         else:
-            out = b""
-            blk = 0
-            while len(out) < n:
+            parts = []
+            for blk in range(min((n + 63) // 64, 64)):
                 h = hashlib.blake2b(digest_size=64)
                 h.update(b"%d/%d/%d" % (self.seed, self.counter, blk))
-                out += h.digest()
-                blk += 1
+                parts.append(h.digest())
+            out = b"".join(parts)
+            if n > len(out):  # very large draws: repeat the 4 KiB block (still unique per draw through its first block)
+                out = out * (n // len(out) + 1)
             out = out[:n]
         self.ledger.append((self.counter, self.op, n, out.hex()))
         self.counter += 1
@@ -179,6 +187,22 @@ class World:
 
         patch(dclient, "time", _TimeShim(self.clock))
         patch(socket, "create_connection", self.connect_sync)
+        import asyncio
+
+        world = self
+        real_read = asyncio.StreamReader.read
+
+        async def counted_read(reader, n=-1):
+            # a coroutine looping on read() after EOF never yields to the loop: count such reads like the simulated socket does
+            if reader._eof and not reader._buffer and n != 0:
+                world.stats["reads_after_eof"] += 1
+                c = getattr(reader, "_verif_eof_reads", 0) + 1
+                reader._verif_eof_reads = c
+                if c > net.SPIN_LIMIT:
+                    raise net.Spin(f"{c} StreamReader.read() calls after EOF")
+            return await real_read(reader, n)
+
+        patch(asyncio.StreamReader, "read", counted_read)
         if patch_entropy:
             ent = self.entropy
             patch(os, "urandom", lambda n: ent.draw(n, "urandom"))
